@@ -58,3 +58,161 @@ def _mk(target, default):
 
 for _t, _d in GENSYMS.items():
     register(_mk(_t, _d))
+
+
+# ---------------------------------------------------------------------------------------------------------------------
+# plans are never confused with one another: finalisation (cached) is per plan *object*, not per set of names
+
+
+import networkx as nx  # noqa: E402
+
+from pyvc import gb as _gb  # noqa: E402
+from pyvc.interp import IObj as _IObj, Opaque as _Opaque  # noqa: E402
+
+PLAN = "cubed.core.plan"
+
+
+@register
+class FinalizePerPlan(FuncSpec):
+    """Plan._finalize (an lru_cache'd method): two distinct plans whose arrays and operations happen to carry the same
+    *names* (an array deserialized from another process next to a local one — names come from per-process counters)
+    are finalised separately: the finalised plan returned for the second plan is built from the second plan's own
+    nodes (its targets, its operations), never a cached result of the first."""
+
+    target = f"{PLAN}:Plan._finalize"
+    name = f"{PLAN}:Plan._finalize[per-plan]"
+    props = ("C20",)
+
+    def configs(self, tier):
+        return [dict(shape=s, optimize=o) for s in (("chain2",) if tier == "quick" else ("chain2", "binary")) for o in (False, True)]
+
+    def install(self, c):
+        S = _gb.install(c)
+        S["cubed.utils:memory_repr"] = lambda it, fn, a, k: "<mem>"
+        S["cubed.primitive.blockwise:gensym"] = lambda it, fn, a, k: f"{a[0] if a else 'op'}-fresh"
+        S[f"{PLAN}:FinalizedPlan._calculate_stats"] = lambda it, fn, a, k: None  # statistics only
+
+    def setup(self, c):
+        from contracts.c02_fusion import build_plan
+
+        it = c.interp
+        PlanCls = it.world.lookup(f"{PLAN}:Plan")
+        d1, _m1, want = build_plan(c, c.cfg["shape"])
+        d2, _m2, _ = build_plan(c, c.cfg["shape"])  # same node names, other objects (another process built it)
+        names = tuple(want)
+        c.p1 = _IObj(PlanCls, dict(dag=d1, array_names=names))
+        c.p2 = _IObj(PlanCls, dict(dag=d2, array_names=names))
+        c.d1, c.d2 = d1, d2
+        c.ops = [n[3:] for n in d1 if n.startswith("op-") and "primitive_op" in d1.nodes[n]]
+        return (), dict(optimize_graph=c.cfg["optimize"])
+
+    def call(self, c, args, kwargs):
+        it = c.interp
+        f1 = it.call(it.getattr_(c.p1, "_finalize"), [], dict(kwargs))
+        f2 = it.call(it.getattr_(c.p2, "_finalize"), [], dict(kwargs))
+        c.f1 = f1
+        return f2
+
+    def ensures(self, c, a, k, f2):
+        yield "distinct-plans-are-finalised-separately", f2 is not c.f1
+        for o in c.ops:
+            an = f"array-{o}"
+            if an in f2.dag:
+                yield f"finalised-plan-holds-its-own-target[{an}]", f2.dag.nodes[an]["target"] is c.d2.nodes[an]["target"]
+            on = f"op-{o}"
+            if on in f2.dag and "primitive_op" in f2.dag.nodes[on] and not c.cfg["optimize"]:
+                yield f"finalised-plan-holds-its-own-operation[{on}]", f2.dag.nodes[on]["primitive_op"] is c.d2.nodes[on]["primitive_op"]
+
+    def replay(self, cfg, model, ob):
+        return """
+import sys
+sys.path.insert(0, '/verif')
+from pyvc.replay_pickle import run_cross_process_case
+reproduced, detail = run_cross_process_case(combine=False)
+"""
+
+
+# ---------------------------------------------------------------------------------------------------------------------
+# the Names invariant at the deserialization boundary
+
+
+import ast as _ast  # noqa: E402
+import time as _time  # noqa: E402
+
+import z3 as _z3  # noqa: E402
+
+from pyvc.source import module_path as _module_path, parse_module as _parse_module  # noqa: E402
+
+PICKLE_HOOKS = ("__reduce__", "__reduce_ex__", "__getstate__", "__setstate__", "__getnewargs__", "__getnewargs_ex__")
+
+
+@register
+class DeserializationEstablishesNames(FuncSpec):
+    """Class invariant *Names* of the process: distinct live arrays carry distinct names (plans are merged by node
+    name: arrays_to_dag composes the DAGs of its arguments with networkx.compose_all, and an array is looked up in a
+    plan by its name).  Every way of bringing an array into existence has to establish it:
+      * the constructors draw the name from the process's counter — gensym's contract (above): the name
+        "array-<k+1>" is new and the counter moves past it;
+      * deserialization: CoreArray / Array / Plan define no pickle hook (checked on the AST), so the default protocol
+        restores `name` and the plan's node names verbatim and does not touch the counter.  The obligation
+        `deserialization-establishes-Names` — the incoming name array-<k> (k >= 1 arbitrary: the sender's counter)
+        is neither the name of an array this process has made (1 <= k <= n) nor one its counter will hand out later
+        (k > n) — is the VC; a counter-model is replayed with two real processes."""
+
+    target = "cubed.core.array:CoreArray"
+    name = "cubed.core.array:CoreArray[deserialization]"
+    props = ("C20",)
+    trusted = ("default pickle protocol: object.__reduce_ex__ restores __dict__ verbatim when a class defines no pickle hook",)
+
+    def configs(self, tier):
+        return [{}]
+
+    def analyze(self, cfg, tier):
+        t0 = _time.time()
+        obs = []
+        hooks = []
+        for mod, classes in (("cubed.core.array", ("CoreArray",)), ("cubed.array_api.array_object", ("Array",)), ("cubed.core.plan", ("Plan",))):
+            tree, _ = _parse_module(_module_path(mod))
+            for n in tree.body:
+                if isinstance(n, _ast.ClassDef) and n.name in classes:
+                    for st in n.body:
+                        if isinstance(st, (_ast.FunctionDef, _ast.AsyncFunctionDef)) and st.name in PICKLE_HOOKS:
+                            hooks.append(f"{mod}:{n.name}.{st.name}")
+        if hooks:
+            # a hook exists: this clause cannot speak for it (it would need its own contract)
+            return dict(spec=self.name, target=self.target, cfg=cfg, paths=1, scoped_paths=0, infeasible=0,
+                        undecided=[f"pickle hooks present, not under contract: {hooks}"], assumptions=list(self.trusted), canaries={},
+                        cover=True, wall_s=round(_time.time() - t0, 3), solver_s=0.0, errors=[], outcomes={}, obligations=[])
+        k, n = _z3.Int("incoming_k"), _z3.Int("local_counter")
+        s = _z3.Solver()
+        s.add(k >= 1, n >= 0)
+        # negation of the obligation: the incoming name collides with a local name, now or later
+        s.add(_z3.Or(_z3.And(1 <= k, k <= n), k > n))
+        ts = _time.time()
+        r = s.check()
+        dt = _time.time() - ts
+        if r == _z3.unsat:
+            obs.append(dict(name="deserialization-establishes-Names", kind="invariant", result="discharged", paths=1, backend="z3",
+                            solver_s=dt, where=["cubed/core/array.py"], failure=None))
+        else:
+            # prefer the witness in which the collision is with an array that already exists
+            s.add(k <= n)
+            s.check()
+            m = s.model()
+            model = {"incoming_k": m[k].as_long(), "local_counter": m[n].as_long()}
+            obs.append(dict(name="deserialization-establishes-Names", kind="invariant", result="failed", paths=1, backend="z3",
+                            solver_s=dt, where=["cubed/core/array.py"],
+                            failure=dict(model=model, where="cubed/core/array.py", path=[], cfg=cfg,
+                                         detail="no pickle hook re-establishes the invariant: the restored name array-%03d equals the "
+                                                "name of a local array (counter %d)" % (model["incoming_k"], model["local_counter"]))))
+        return dict(spec=self.name, target=self.target, cfg=cfg, paths=1, scoped_paths=0, infeasible=0, undecided=[],
+                    assumptions=list(self.trusted), canaries={}, cover=True, wall_s=round(_time.time() - t0, 3), solver_s=dt,
+                    errors=[], outcomes={}, obligations=obs)
+
+    def replay(self, cfg, model, ob):
+        return """
+import sys
+sys.path.insert(0, '/verif')
+from pyvc.replay_pickle import run_cross_process_case
+reproduced, detail = run_cross_process_case(combine=True)
+"""
